@@ -571,7 +571,13 @@ EXCLUDED_METHODS = {"add_dependency", "remove_dependency", "to_system", "subset"
                     "__setattr__", "__getattr__", "__getitem__", "__setitem__", "__deepcopy__", "__array_finalize__", "__new__",
                     "_clear_dependent_caches", "_share_memory_with", "_read", "_write",
                     # NumPy protocol hooks (called by NumPy with its own output arrays, not with another position)
-                    "__array_wrap__", "__array_ufunc__", "__array_function__", "__array_prepare__"}
+                    "__array_wrap__", "__array_ufunc__", "__array_function__", "__array_prepare__", "__array_interface__",
+                    "__reduce__", "__reduce_ex__", "__setstate__", "__getstate__", "__copy__", "__init__", "__init_subclass__",
+                    "__class_getitem__", "__contains__", "__dir__", "__len__"}
+
+ARITHMETIC_DUNDERS = {"__add__", "__sub__", "__radd__", "__rsub__", "__iadd__", "__isub__", "__mul__", "__rmul__", "__imul__", "__truediv__",
+                      "__rtruediv__", "__itruediv__", "__floordiv__", "__rfloordiv__", "__ifloordiv__", "__matmul__", "__rmatmul__",
+                      "__imatmul__", "__pow__", "__rpow__", "__ipow__", "__neg__", "__eq__", "__ne__", "__lt__", "__le__", "__gt__", "__ge__"}
 
 
 def methods_with_object_argument(q):
@@ -591,7 +597,8 @@ def methods_with_object_argument(q):
             except (TypeError, ValueError):
                 continue
             req = [p for p in params[1:] if p.default is inspect.Parameter.empty and p.kind in (p.POSITIONAL_ONLY, p.POSITIONAL_OR_KEYWORD)]
-            if len(params) >= 2 and len(req) == 1 and (not n.startswith("_") or (n.startswith("__") and n.endswith("__"))):
+            # public methods and the arithmetic dunders; no other dunder machinery
+            if len(params) >= 2 and len(req) == 1 and (not n.startswith("_") or n in ARITHMETIC_DUNDERS):
                 seen.add(n)
                 out.append(n)
     return sorted(out)
@@ -638,7 +645,10 @@ def d2_history(position, build, argget, m1, write, target, mkind, m2):
         return None
     if m1 is not None:
         _, r = call(o, m1, arg)
-        if write and isinstance(r, np.ndarray) and r.flags.writeable and r.dtype.kind == "f":
+        # a result that uses the memory of the argument or of the receiver is not a private result: writing into it is a change of
+        # that object (covered by the `changed` step), not the step "modifying a returned result"
+        if (write and isinstance(r, np.ndarray) and r.flags.writeable and r.dtype.kind == "f"
+                and not np.shares_memory(r, arg) and not np.shares_memory(r, o)):
             try:
                 np.asarray(r)[...] = 7.0
             except Exception:
